@@ -848,6 +848,65 @@ fn gen_formula(src: &mut Src, k: usize, depth: usize) -> F {
     }
 }
 
+/// arrays (and objects) of SCALAR children with runs of equal and of almost equal neighbours - repeated flags
+/// and codes, `1` next to `1.0`, 64-bit ids issued one after the other: every child is judged on its own value,
+/// whatever its neighbour was
+fn random_scalar_runs(src: &mut Src, obs: &mut Obs) -> Res {
+    let base: i64 = *src.pick(&[1585341984679469056, 9007199254740992, 1700000000000000000, 5, 100]);
+    let pool: Vec<J> = vec![
+        J::Int(base), J::Int(base + 1), J::Int(base + 2), J::Int(base - 1), J::Int(12), J::Float(12.0), J::Int(1), J::Float(1.0), J::Float(0.0), J::Float(-0.0), J::Int(0),
+        J::Str("a".into()), J::Str("a".into()), J::Str("b".into()), J::Bool(true), J::Bool(false), J::Null, J::Null,
+    ];
+    let n = 2 + src.below(10);
+    let mut kids: Vec<J> = vec![];
+    for _ in 0..n {
+        // runs: repeat the previous child, take its successor, or draw afresh
+        let next = match (kids.last().cloned(), src.below(4)) {
+            (Some(p), 0) => p,
+            (Some(J::Int(i)), 1) => J::Int(i + 1),
+            _ => src.pick(&pool).clone(),
+        };
+        kids.push(next);
+    }
+    let me = src.pick(&[J::Int(base), J::Int(base + 1), J::Int(12), J::Int(1), J::Str("a".into()), J::Null]).clone();
+    let blocked = src.pick(&[J::Int(base + 2), J::Int(base), J::Float(1.0), J::Str("b".into())]).clone();
+    let as_object = src.chance(1, 4);
+    let holder = if as_object { J::Obj(kids.into_iter().enumerate().map(|(i, k)| (format!("k{:02}", i), k)).collect()) } else { J::Arr(kids) };
+    let doc = J::Obj(vec![("blocked".to_string(), J::Arr(vec![blocked])), ("ids".to_string(), holder), ("me".to_string(), me)]);
+    let test = *src.pick(&[
+        "@ == $.me", "@ != $.me", "@ != $.me && @ != $.blocked[0]", "!(@ <= $.me) || @ == 12", "@ > $.me", "@ >= $.me && @ < $.blocked[0]", "$.me == @ || @ == $.blocked[0]", "@ == 12", "@ == 1 || @ == 'a'",
+        "!(@ == $.me)", "@ < 1.5", "@",
+    ]);
+    let text = format!("$.ids[?{}]", test);
+    let q = match crate::recog::parse_ast(&text) {
+        Some(q) => q,
+        None => return Err(Failure::new("harness inconsistency: the scalar-run family produced a query outside the recogniser's language", json!({"query": text}))),
+    };
+    obs.label("scalar-runs");
+    let v = doc.to_value();
+    let map = node_map(&v);
+    let exp: Vec<Loc> = crate::oracle::eval(&q, &doc, &crate::oracle::Quirks::strict()).iter().map(|n| n.loc()).collect();
+    obs.eval(1);
+    if exp.len() >= 1 {
+        obs.nontrivial(&(text.as_str(), doc.text()), || json!({"query": text, "doc": doc.to_value()}));
+    }
+    match libx::query_with_path(&v, &map, &text) {
+        Ok(nodes) => {
+            let got: Vec<Option<Loc>> = nodes.iter().map(|n| n.loc.clone()).collect();
+            let e: Vec<Option<Loc>> = exp.iter().cloned().map(Some).collect();
+            if got != e {
+                return Err(Failure::new(
+                    "the filter does not keep exactly the children for which its logical expression is true (in order)",
+                    json!({"query": text, "doc": doc.to_value(), "expected_kept": exp.iter().map(|l| normalized_path(l)).collect::<Vec<_>>(), "library_kept": nodes.iter().map(|n| n.path.clone()).collect::<Vec<_>>()}),
+                ));
+            }
+            Ok(())
+        }
+        Err(LibErr::Err(e)) => Err(Failure::new(format!("valid query rejected: {}", e), json!({"query": text}))),
+        Err(LibErr::Panic(p)) => Err(Failure::new(format!("panic: {}", p), json!({"query": text, "doc": doc.to_value()}))),
+    }
+}
+
 fn random_formulas(src: &mut Src, obs: &mut Obs) -> Res {
     let k = 1 + src.below(4);
     let kinds: Vec<AtomKind> = if src.chance(1, 10) { vec![AtomKind::ExistsShared; k] } else { (0..k).map(|_| *src.pick(&KINDS)).collect() };
@@ -1015,6 +1074,7 @@ pub fn prop() -> Prop {
         subs: vec![
             Sub { name: "formulas-exhaustive", kind: Kind::Exhaustive(exhaustive) },
             Sub { name: "random-formulas", kind: Kind::Random { f: random_formulas, quick: 80_000, thorough: 1_600_000, len: 600 } },
+            Sub { name: "random-scalar-runs", kind: Kind::Random { f: random_scalar_runs, quick: 40_000, thorough: 800_000, len: 120 } },
             Sub { name: "random-several-filters", kind: Kind::Random { f: random_several_filters, quick: 48_000, thorough: 960_000, len: 300 } },
             Sub { name: "random-scoping", kind: Kind::Random { f: random_scoping, quick: 80_000, thorough: 1_600_000, len: 200 } },
         ],
